@@ -1,4 +1,5 @@
-import TmcgProofs.CgjkrSignBindF
+import TmcgProofs.CgjkrSignBindI
+import TmcgProofs.CgjkrSignBindK
 /-
   C16, threshold DSS (`CanettiGennaroJareckiKrawczykRabinDSS::Sign`, model Tmcg/Model/CgjkrSign.lean), run level:
   agreement and validity of the signature from hypotheses on the VIEWS of the honest parties at the two rounds
@@ -28,11 +29,12 @@ import TmcgProofs.CgjkrSignBindF
   challenge known beforehand every answer is accepted for a suitable first message), a signer that knows the
   jointly generated challenge `d` in advance passes with any values (soundness error 1/q per proof).  The same
   holds for `a_dkg->y = g^a` (steps 5–7 of the nested key generation).
-  NOT DERIVED HERE (TODO): that the state at `shRead ph` is the state `shEmit ph` left (schedule: `shEmit` is the last
-  action of the round before); that the shares an honest party holds of a signer's back-up sharing satisfy the share
+  `runViews_of_rows` puts this together for the states of a run, using the schedule link `atAct_shRead_emit` (the state
+  at `shRead ph` is the one `shEmit ph` left: `shEmit ph` is the last action of the round before).
+  NOT DERIVED HERE (TODO): `lam.length = m` at these states (true from `kDeal` on; a hypothesis of
+  `runViews_of_rows`); that the shares an honest party holds of a signer's back-up sharing satisfy the share
   check (`pvRecv1`–`pvRecv3`) and that `t+1` honest parties hold the same rows; agreement of the honest parties on
-  `a_dkg->y`.  No instance on `tinyRun`: `RunViews` quantifies over the states of the run at two rounds, which the
-  kernel would have to evaluate symbolically.
+  `a_dkg->y`.  NON-VACUITY: `sign_run_views_nonvacuous` (all hypotheses hold on the honest run `tinyRun 0`).
   Property theorems only (proofs by reference to TmcgProofs/CgjkrSignBind*.lean).
 -/
 namespace Tmcg.C16
@@ -79,6 +81,43 @@ theorem sign_run_valid_views (hG : ValidGrp G) (t : Nat) (msg : Int) (sub : List
     (hr0 : P1.st.r ≠ 0) (hs0 : P1.st.s ≠ 0) :
     Tsig.dssVerify (gGrp G) y msg P1.st.r P1.st.s = .ok true :=
   Tmcg.CgjkrSignBind.sign_run_valid_views hG t msg sub ins hnd hsmall x a y kz hB k1 h1 P1 hP1 hd1 hy hay hmu0 hr0 hs0
+
+/-- **the schedule link**: the state at which a party executes `shRead ph` (step 1f / 2f, second half) is the state
+    `shEmit ph` (first half) left, after the digest filter -/
+theorem atAct_shRead_emit (G : Dkg.Grp) (t : Nat) (msg : Int) (sub : List Nat) (ins : List SignIn) (k ph : Nat)
+    (st : SSt) (I : Inbox) (hAt : AtAct G t msg sub ins k (.shRead ph) st I) :
+    ∃ st0 I0 st1 I1 ops1, StructP t sub k st0 ∧ doAct G (.shEmit ph) st0 I0 = .ok (.go st1 I1 ops1) ∧
+      st = (emitOps st1 ops1 []).1 :=
+  Tmcg.CgjkrSignBind.atAct_shRead_emit G t msg sub ins k ph st I hAt
+
+/-- **`RunViews` from the irreducible hypotheses**, for the states of a run: at the rounds of steps 1f / 2f, for every
+    honest party, (structural) `lam.length = m`; the rows it holds are Pedersen rows of polynomial pairs of degree ≤ t
+    (`ViewRows0`; forced by `t+1` valid pairs: `hrow_of_shares`); its shares of the signers' back-up sharings lie on
+    these polynomials; BINDING of the one commitment per position w.r.t. the pairs of its inbox (`PedBindOcc`,
+    computational); the PRODUCT RELATION for every signer of the final signer set with polynomials `K`, `A` of degree
+    ≤ t, `K(0)·A(0) = k·a` resp. `k·(m + x·r)` (soundness of the proofs of steps 1c/1d/2c/2d, error 1/q each;
+    correctness of the reconstructions 1e/2e); and agreement on `a_dkg->y` (nested key generation).  The signer
+    count ≥ 2t+1, the Lagrange multipliers and the own combined share are derived (schedule link, `shEmit_spec`). -/
+theorem runViews_of_rows (hG : ValidGrp G) (t : Nat) (msg : Int) (sub : List Nat) (ins : List SignIn)
+    (hnd : sub.Nodup) (hsmall : ∀ d ∈ sub, (d : Int) + 1 < G.q) (kz az xz : ZMod G.q.natAbs)
+    (hview : ∀ (ph : Nat) k st I, honestS ins k → AtAct G t msg sub ins k (.shRead ph) st I → ph = 0 ∨ ph = 1 →
+      st.lam.length = st.m ∧
+      ∃ (V V' : Nat → Polynomial (ZMod G.q.natAbs)) (K A : Polynomial (ZMod G.q.natAbs)),
+        ViewRows0 G st (if ph = 0 then 2 else 4) V V' ∧
+        (∀ jt ∈ st.signers, st.compl.contains jt = false →
+          cq G (getPv st (if ph = 0 then 2 else 4) jt).sigma = (V jt).eval (pt G.q (getN st.pts st.i))) ∧
+        PedBindOcc G st I
+          (Fcomb G st (fun jt => lam G.q (st.signers.map (getN st.pts)) (getN st.pts jt)) V)
+          (Fcomb' G st (fun jt => lam G.q (st.signers.map (getN st.pts)) (getN st.pts jt)) V') ∧
+        K.degree < ((st.t + 1 : Nat) : WithBot Nat) ∧ A.degree < ((st.t + 1 : Nat) : WithBot Nat) ∧
+        (∀ jt ∈ st.signers, (Wv G st V jt).eval 0 =
+          K.eval (pt G.q (getN st.pts jt)) * A.eval (pt G.q (getN st.pts jt))) ∧
+        K.eval 0 * A.eval 0 = (if ph = 0 then kz * az else kz * (cq G msg + xz * cq G st.r)))
+    (hy : ∀ k1 k2 st1 I1 st2 I2, honestS ins k1 → honestS ins k2 →
+      AtAct G t msg sub ins k1 (.shRead 0) st1 I1 → AtAct G t msg sub ins k2 (.shRead 0) st2 I2 →
+      st1.ag.y = st2.ag.y) :
+    RunViews G t msg sub ins kz az xz :=
+  Tmcg.CgjkrSignBind.runViews_of_rows hG t msg sub ins hnd hsmall kz az xz hview hy
 
 /-- **one view**: from the rows, the own shares, the binding of one commitment per position and the product relation
     to a bound view with the secret `K(0)·A(0)` (the parts (mu), (s) of `RunViews` for one party) -/
@@ -206,7 +245,26 @@ theorem bindsView_unsat (hG : ValidGrp G) (st : SSt) (kindV : Nat) (F : Polynomi
     ¬ BindsView G st kindV F :=
   Tmcg.CgjkrSignBind.bindsView_unsat hG st kindV F j hj rhs hrhs hr hrq
 
-/-- the structural hypotheses on the signer list, for the signers `[0, 1, 2]` of `tinyRun` (`q = 11`) -/
-example : ([0, 1, 2] : List Nat).Nodup ∧ ∀ d ∈ ([0, 1, 2] : List Nat), (d : Int) + 1 < 11 := by decide
+/-- **NON-VACUITY.**  On the complete honest run of TmcgProofs/CgjkrSignExample.lean (`tinyRun 0`: `p = 23`, `q = 11`,
+    `g = 2`, `h = 8`, three parties, `t = 1`, key generation then `Sign(7)`; `G0`, `sins0` are its group and its
+    signers' inputs, `tinyRun_is_this_run`) the hypothesis `RunViews` HOLDS — with `k = 2`, `a = 7`, `x = 4`; the
+    polynomials are `3 + 4·X` at step 1f (`mu = 3 = 2·7`) and the constant `4` at step 2f (`s = 4 = 2·(7 + 4·7)`),
+    `a_dkg->y = 13 = 2^7`, found by kernel evaluation of the run up to the rounds 63 and 102 where the schedule has
+    `shRead 0` / `shRead 1`, `BindsViewOcc` by finite case analysis over the pairs of the inboxes (`checkOcc_sound`) —
+    and so do all other hypotheses of `sign_run_valid_views` (`y = 16 = 2^4`, `k·a ≠ 0`, `r = 7`, `s = 4`); the second
+    part is the conclusion of `sign_run_valid_views` for party 0 (proved THROUGH that theorem, not by evaluating the
+    verifier). -/
+theorem sign_run_views_nonvacuous :
+    RunViews G0 1 7 [0, 1, 2] sins0 (cq G0 2) (cq G0 7) (cq G0 4) ∧
+    ∃ P1, (runSign G0 1 7 [0, 1, 2] sins0)[0]? = some P1 ∧ P1.status = .ret true ∧ P1.st.r = 7 ∧ P1.st.s = 4 ∧
+      Tsig.dssVerify (gGrp G0) 16 7 7 4 = .ok true :=
+  ⟨Tmcg.CgjkrSignBind.tiny_runViews, Tmcg.CgjkrSignBind.tiny_valid_through_views⟩
+
+/-- the run of `sign_run_views_nonvacuous` is the run of `tinyRun 0` -/
+theorem tinyRun_is_this_run : Tmcg.CgjkrSignEx.tinyRun 0 = some ((runSign G0 1 7 [0, 1, 2] sins0).map (fun P =>
+    (P.status == .ret true, P.st.r, P.st.s,
+      ((runGenC G0 3 1 ((List.range 3).map (fun i => ⟨Tmcg.CgjkrSignEx.coins (0 + i) 10, [], {}, {}⟩))).map
+        (fun P => P.st.y)).headD 0))) :=
+  Tmcg.CgjkrSignBind.tinyRun_eq
 
 end Tmcg.C16
